@@ -37,7 +37,8 @@ type codec struct {
 
 var codecs = []codec{
 	{"xz", func(s io.Writer, v int) (io.WriteCloser, error) {
-		return xz.WriterConfig{DictCap: []int{1 << 16, 4096}[v%2], BlockSize: int64([]int{0, 2500}[v/2%2])}.NewWriter(s)
+		// (the variants with small blocks alternate between a check and none)
+		return xz.WriterConfig{DictCap: []int{1 << 16, 4096}[v%2], BlockSize: int64([]int{0, 2500}[v/2%2]), NoCheckSum: v%4 == 3}.NewWriter(s)
 	}, func(s io.Reader) (io.Reader, error) { return xz.ReaderConfig{DictCap: 4096}.NewReader(s) }},
 	{"lzma2", func(s io.Writer, v int) (io.WriteCloser, error) {
 		return lzma.Writer2Config{DictCap: []int{1 << 16, 4096}[v%2], Matcher: lzma.MatchAlgorithm(v / 2 % 2)}.NewWriter2(s)
@@ -194,6 +195,43 @@ func chainMain(seed uint64, rounds int) {
 			res.Scenarios++
 			res.Kinds["stacked"]++
 			res.Bytes += int64(len(data))
+		}
+		// 1b. a writer and a reader joined directly by io.Pipe (no buffering in between: every
+		// Write of the writer, zero-length ones included, is one Read result of the reader)
+		for ci, cd := range codecs {
+			for v := 0; v < 4; v++ {
+				id := fmt.Sprintf("direct pipe %s variant %d round %d", cd.name, v, round)
+				note(id)
+				data := mkdata(r.Pick(3000, 12000, 30000))
+				pr, pw := io.Pipe()
+				var werr error
+				done := make(chan struct{})
+				go func() {
+					defer close(done)
+					w, err := cd.w(pw, v)
+					if err != nil {
+						werr = err
+						pw.CloseWithError(err)
+						return
+					}
+					werr = writeAll(w, v, data)
+					pw.Close()
+				}()
+				var got []byte
+				rd, rerr := cd.r(pr)
+				if rerr == nil {
+					got, rerr = io.ReadAll(rd)
+				}
+				io.Copy(io.Discard, pr)
+				<-done
+				if werr != nil || rerr != nil || !bytes.Equal(got, data) {
+					bad("%s: writer %v, reader %v, %d of %d bytes", id, werr, rerr, len(got), len(data))
+				}
+				res.Scenarios++
+				res.Kinds["direct-pipe"]++
+				res.Bytes += int64(len(data))
+				_ = ci
+			}
 		}
 		// 2. pipeline: reader -> writer -> pipe -> reader -> writer -> pipe -> reader, each stage
 		// in its own goroutine (recompression between formats)
